@@ -6,7 +6,7 @@ import gen
 
 def run(res, args):
     res.rule = ("the real HandleMessages of rtcmfilter (go test -overlay) on mixed segment streams, hostile streams and pure "
-                "frame sequences, all four display/record switch settings, input chunkings 1..4096 and writer latencies; the "
+                "frame sequences, all four display/record switch settings, input chunkings 1..100000 (also the last bytes returned together with io.EOF, silence before the end of input) and writer latencies; the "
                 "bytes written are compared with the concatenation of the typed messages of sequential framing (extracted "
                 "model, cross-checked with the implementation's stream handler and the valid_frame specification); the daily "
                 "record file and the display log are read back; non-trivial = at least one valid frame and one other segment")
@@ -37,8 +37,10 @@ def run(res, args):
     ins.append((b"", "empty"))
     cases = []
     for s, tag in ins:
-        cases.append("filter %s %d %d %d %s" % (gen.hx(s), rng.getrandbits(1), rng.getrandbits(1), rng.choice([0, 0, 100, 1000]),
-                                                rng.choice(["1", "5", "64", "4096", "2.1.9"])))
+        opt = rng.choice(["-", "-", "e", "e", "p20", "e,p20"])
+        res.count("reader options " + opt)
+        cases.append("filter %s %d %d %d %s %s" % (gen.hx(s), rng.getrandbits(1), rng.getrandbits(1), rng.choice([0, 0, 100, 1000]),
+                                                   rng.choice(["1", "5", "64", "4096", "2.1.9", "100000"]), opt))
     scases = ["stream %d debug %s" % (framing.T0, gen.hx(s)) for s, _ in ins]
     simpl, smodel = framing.run_both(res, "stream", scases)
     obs, e = common.run_app_test(fbin, cases, "C10")
